@@ -250,15 +250,15 @@ class C12Oracle(worldprop.Oracle):
                 self.fail(idx, "changing the bundle made by add_bundle(document) changed the source document", cls=cls.__name__)
 
     def finish(self, ops):
-        self.alias_finish()
         if len(ops) % 7 == 0:
             self.subclass_documents(len(ops))
         # record.copy(): an equal record that shares no mutable state with its source
         import prov.model as M
         idx = len(ops)
-        recs = [(di, r) for di, d in enumerate(self.im.docs) for c in [d] + list(d.bundles) for r in c._records]
+        recs = [(di, sj, ri, r) for di, d in enumerate(self.im.docs)
+                for sj, c in [("none", d)] + list(enumerate(d._bundles.values())) for ri, r in enumerate(c._records)]
         step = max(1, len(recs) // 12)
-        for di, r in recs[::step][:12]:
+        for di, sj, ri, r in recs[::step][:12]:
             # records only: the copy lives in the same bundle (documented), so validating its attribute names may
             # register an inherited namespace in that bundle's own table — not shared record state
             def recs_only():
@@ -283,6 +283,11 @@ class C12Oracle(worldprop.Oracle):
                     pass
             if recs_only() != before:
                 self.fail(idx, "changing a copied record changed its source", record=str(r.identifier), doc=di)
+            # the same in the store model (Alias.ACopyTouch; C12_copy_leaves_source): the copy is listed nowhere
+            if getattr(self, "alias_ops", None) is not None and not getattr(self, "alias_dead", False):
+                self.alias_ops.append(["CopyTouch", str(di), str(sj), str(ri)])
+                self.alias_shapes.append(impl_shapes(self.im.docs)); self.alias_idx.append(idx)
+        self.alias_finish()
 
 
 def post(g):
@@ -406,7 +411,7 @@ def alias_correspondence(tier, seed):
                 o.before(idx, op)
                 ob = o.im.step(op)
                 o.alias_after(idx, op, ob)
-            o.alias_finish()
+            o.finish([op for op in ops if op[0] != "ObserveAll"] + [["pad"]] * 3)      # the record.copy() part, then the comparison
         except Exception:
             continue
         n_prog += 1
